@@ -36,7 +36,7 @@ def levH : List κ → List κ → Nat
 
 /-- The distance the row-by-row DP computes: Wagner–Fischer fills `D[i][j]` = distance of the
 first `i` characters of `a` and the first `j` of `b`, i.e. the recurrence above read from the
-right-hand end of both strings. -/
+right-hand end of both strings.  `lev_eq_levH` (Lemmas/SuggestLev) proves `lev a b = levH a b`. -/
 def lev (a b : List κ) : Nat := levH a.reverse b.reverse
 
 /-- `(s ..= s+n).collect()` -/
